@@ -7,5 +7,5 @@ for id in $(python3 -c "import json;print(' '.join(c['property_id'] for c in jso
   out=$(./check $id --tier $tier 2>&1)
   rc=$?
   echo "== $id rc=$rc $(( $(date +%s) - start ))s"
-  echo "$out" | grep -E "^(VIOLATION|KNOWN-FINDING|ERROR|OK)" | cut -c1-200
+  echo "$out" | grep -E "^(VIOLATION|KNOWN-FINDING|ERROR|OK|BOUND-NOT-ESTABLISHED)" | cut -c1-200
 done
